@@ -49,8 +49,8 @@ func compare(c *pipe.Case, g *pipe.Got, ref []pipe.RefLine) error {
 	if ef != wr {
 		return fmt.Errorf("harness self-check: reference splitter counts %d lines, newline count says %d", wr, ef)
 	}
-	if g.ReadErrors != 0 {
-		return fmt.Errorf("read errors reported on healthy inputs: %d", g.ReadErrors)
+	if g.ReadErrors != len(c.Missing) {
+		return fmt.Errorf("%d read errors reported, %d inputs cannot be opened (all others are healthy)", g.ReadErrors, len(c.Missing))
 	}
 	if g.Read != wr {
 		return fmt.Errorf("ReadLines=%d, true number of lines=%d (batch=%d workers=%d readers=%d bb=%d)", g.Read, wr, c.Batch, c.Workers, c.Readers, c.BatchBuffer)
@@ -127,6 +127,8 @@ func observe(c *pipe.Case, g *pipe.Got, ref []pipe.RefLine) {
 	o.Label(len(c.MatchDelay) > 0, "matcher-latency")
 	o.Label(len(c.ConsumeDelay) > 0, "consumer-latency")
 	o.Label(c.ViaReader, "reader-path")
+	o.Label(len(c.Missing) > 0, "unopenable-input-among-healthy")
+	o.Label(len(c.Missing) >= c.Readers && len(c.Missing) > 0, "unopenable>=reader-slots")
 	o.Label(c.Matcher.Kind == "dissect", "dissect")
 	o.Label(c.Matcher.Kind == "regex", "regex")
 	o.Label(c.Matcher.Kind == "default", "default-matcher")
@@ -244,7 +246,19 @@ func checkCLI(cc CLICase) error {
 			args = append(args, "-")
 		}
 	} else {
-		args = append(args, files...)
+		for i, f := range files {
+			for k, m := range c.Missing {
+				if m == i {
+					args = append(args, filepath.Join(dir, fmt.Sprintf("cli-missing-%d-%d.log", i, k)))
+				}
+			}
+			args = append(args, f)
+		}
+		for k, m := range c.Missing {
+			if m == len(files) {
+				args = append(args, filepath.Join(dir, fmt.Sprintf("cli-missing-%d-%d.log", m, k)))
+			}
+		}
 	}
 	cmd.Args = append(cmd.Args, args...)
 	cmd.Env = append(os.Environ(), "GOMAXPROCS="+strconv.Itoa(c.Procs))
@@ -257,7 +271,14 @@ func checkCLI(cc CLICase) error {
 	} else if runErr != nil {
 		return fmt.Errorf("harness: cannot run rare: %v", runErr)
 	}
-	if code != 0 && code != 1 {
+	if cc.Stdin {
+		c.Missing = nil
+	}
+	if len(c.Missing) > 0 {
+		if code != 2 {
+			return fmt.Errorf("rare %q exited %d although %d inputs cannot be opened (expected 2)\nstderr: %s", args, code, len(c.Missing), pbt.Trunc(stderr.String(), 1500))
+		}
+	} else if code != 0 && code != 1 {
 		return fmt.Errorf("rare %q exited %d\nstderr: %s", args, code, pbt.Trunc(stderr.String(), 1500))
 	}
 	ref, err := pipe.Reference(&c, sources)
@@ -278,7 +299,7 @@ func checkCLI(cc CLICase) error {
 	if gm != wm || gr != wr || gi != wi {
 		return fmt.Errorf("summary says Matched: %d / %d (Ignored: %d); sequential evaluation gives %d / %d (Ignored: %d)\nargs=%q", gm, gr, gi, wm, wr, wi, args)
 	}
-	if (wm == 0) != (code == 1) {
+	if len(c.Missing) == 0 && (wm == 0) != (code == 1) {
 		return fmt.Errorf("exit status %d with %d matches", code, wm)
 	}
 	// stdout is a concatenation of key+"\n" in some order: compare the
